@@ -78,6 +78,17 @@ var c08Hemmed = []string{
 	"k7/8/8/8/8/1p6/1P4r1/B5rK w - - 0 1",
 }
 
+// positions whose only legal move is an en-passant capture (the mover is in check by the pawn
+// that has just made its double step, every king move is covered); with two flanking pawns of
+// which one is pinned on its file - each side of the pair once - and with a single capturer.
+// Each is confirmed against refchess at run time (all legal moves of kind EnPassant) before use.
+var c08OnlyEnPassant = []string{
+	"1rr4k/8/4p3/2PpP3/2K5/7q/8/6b1 w - d6 0 1",
+	"k4rr1/8/3p4/3PpP2/5K2/q7/8/1b6 w - e6 0 1",
+	"1r5k/8/4p3/3pP3/2K5/7q/8/6b1 w - d6 0 1",
+	"k5r1/8/3p4/3Pp3/5K2/q7/8/1b6 w - e6 0 1",
+}
+
 var c08OnlyDoublePush = []string{
 	"1q6/q7/k7/3q4/3q4/8/4P3/7K w - - 0 20",
 	"6q1/6k1/5b2/6q1/1r6/8/3P3q/K7 w - - 0 20",
@@ -385,6 +396,27 @@ func c08(c *Ctx) {
 		for _, b := range []*rc.Board{rc.MustFEN(f), rc.MustFEN(f).Mirror()} {
 			rep.Inc("hemmed_in_terminal_positions")
 			probe(engPos(b.FEN()), b, SubRng(c.Seed, "c08/hemmed", i), map[string]interface{}{"kind": "hemmed-in officers, no legal move"})
+		}
+	}
+	// positions whose only legal move is an en-passant capture (one or two capturers, one pinned)
+	for i, f := range c08OnlyEnPassant {
+		if !c.Mine(i) {
+			continue
+		}
+		for _, b := range []*rc.Board{rc.MustFEN(f), rc.MustFEN(f).Mirror()} {
+			lm := b.Legal()
+			ok := len(lm) > 0
+			for _, m := range lm {
+				if m.Kind != rc.EnPassant {
+					ok = false
+				}
+			}
+			if !ok {
+				rep.Inc("only_en_passant_template_rejected")
+				continue
+			}
+			rep.Inc("only_en_passant_legal")
+			probe(engPos(b.FEN()), b, SubRng(c.Seed, "c08/onlyep", i), map[string]interface{}{"kind": "only legal move is an en-passant capture"})
 		}
 	}
 	// positions (found by a random search with refchess) whose only legal move is a double
